@@ -562,3 +562,37 @@ def status_typestate(db, cx, rule, eff):
                  {D + "InitTracksExecutor::operator()", D + "ProcessSecondariesExecutor::operator()"},
                  "only track initialisation may put a new track into a slot")
 
+
+
+def prestep_scratch_reset(db, cx, rule):
+    """K1: PreStepExecutor resets the per-step physics scratch (deposition, secondaries,
+    sampled element) on every path of a non-inactive slot - including tracks that enter the
+    step already errored, which the tracking cut still deposits for."""
+    pre = [f for f in db.get(D + "PreStepExecutor::operator()")]
+    cx.require(pre, "anchor PreStepExecutor not found")
+    for f in pre:
+        brs = f.branch_blocks(lambda c, _b: c.get("renum", "").endswith("TrackStatus::inactive"))
+        cx.require(brs, "PreStepExecutor no longer tests for inactive slots")
+        br = brs[0]
+        c = f.blocks[br]["cond"]
+        tgt = f.blocks[br]["succ"][f.cond_polarity_edge(br, c["op"] != "==")]
+        for meth in ("reset_energy_deposition", "secondaries", "element"):
+            okp, path = f.must_pass(
+                lambda e, m=meth: e["e"] == "call" and e["callee"] == C + "PhysicsStepView::" + m
+                and (m == "reset_energy_deposition" or len(e.get("args", [])) == 1),
+                start=(tgt, -1))
+            cx.ob(rule, "PreStepExecutor resets PhysicsStepView::%s on every "
+                  "active path" % meth, okp, "must-pass from the not-inactive edge", short(f.loc),
+                  path=f.path_locs(path),
+                  why="step-local scratch that survives into the next step (or next occupant) "
+                      "makes results depend on history")
+        # macro_xs: calc_physics_step_limit must run for every non-errored active track
+        ebr = f.branch_blocks(lambda c, _b: c.get("renum", "").endswith("TrackStatus::errored"))
+        if ebr:
+            c2 = f.blocks[ebr[0]]["cond"]
+            t2 = f.blocks[ebr[0]]["succ"][f.cond_polarity_edge(ebr[0], c2["op"] != "==")]
+            okp, path = f.must_pass(lambda e: e["e"] == "call" and e["callee"] == C + "calc_physics_step_limit",
+                                    start=(t2, -1))
+            cx.ob(rule, "PreStepExecutor recomputes the step limit / macro xs",
+                  okp, "calc_physics_step_limit on every non-errored path", short(f.loc),
+                  path=f.path_locs(path))
